@@ -45,6 +45,10 @@ def canon_rowcol(m, n, e):
 def option_masks(rng, tier, base=DEFAULT_MASK, algos=(0,), allow_bad=True):
     """defaults + every single-flag deviation + seeded random masks"""
     masks = [base]
+    if base == DEFAULT_MASK:
+        # the same options through the library's own defaults (bit 23: the harness overrides nothing after *ParamsInit) and through
+        # params = NULL (bit 24); the judge reads the default bits
+        masks += [base | (1 << 23), base | (1 << 24)]
     for b in (B_TERNARY, B_CAMIONFIRST, B_NAIVE, B_STOP_IRR, B_SP, B_PLANAR, B_DIRECT, B_PREFER, B_LEAFGRAPHS, B_ALLGRAPHS):
         masks.append(base ^ b)
     for s in (1, 2, 3, 4):
